@@ -6,7 +6,8 @@ PROPERTY THEOREMS ONLY.  Proved here:
                     nothing but PC (+2 modulo the address space): registers, flags, every memory cell
                     and the cycle counter stay as they were (GENERATED case analysis over the
                     undeclared bytes, each closed by the translator's dispatch fact);
-  * `closed_irq_nmi` / `closed_reset`   interrupts and reset leave a well-formed state;
+  * `closed_nmi_pc` / `closed_reset`    interrupts and reset leave PC / the state well-formed (the full closure of
+                                        every call over every history is `Props/C05h.lean`);
   * `pc_closed`     PC is inside the address space after EVERY step(), whatever the opcode does;
   * register/cell closure for declared opcodes follows from C01-C03 (abs (step s) = Spec.step (abs s))
                     for the opcodes they cover; the rest is carried by the bounds-checking-memory runs.
